@@ -149,6 +149,41 @@ func texts(part, parts int) {
 	}
 }
 
+// reuse: the same destination variable across several accessor calls (long,
+// short, medium, longer, empty-ish ...): each call must hand back its own data.
+func reuse() {
+	lens := []int{300, 5, 200, 1, 128, 127, 16384, 2, 20000, 3, 129}
+	var dst []byte
+	var txt string
+	for round := 0; round < 2; round++ {
+		for _, n := range lens {
+			p := content(n, 2+round)
+			ctx.Eval()
+			m := smf.MetaSequencerData(p)
+			if !m.GetMetaSeqData(&dst) || !bytes.Equal(dst, p) {
+				report("accessor:MetaSequencerData:destination-reused", "MetaSequencerData", n, m, fmt.Sprintf("with a destination that held an earlier result, %d bytes came back for %d", len(dst), n))
+				return
+			}
+			t := smf.MetaText(string(p))
+			if !t.GetMetaText(&txt) || txt != string(p) {
+				report("accessor:MetaText:destination-reused", "MetaText", n, t, fmt.Sprintf("with a destination that held an earlier result, %d bytes came back for %d", len(txt), n))
+				return
+			}
+			ctx.NontrivialN(1)
+		}
+	}
+	// the data handed out must not change when the next message is decoded
+	a := smf.MetaSequencerData(content(50, 2))
+	b := smf.MetaSequencerData(content(50, 3))
+	var da, db []byte
+	a.GetMetaSeqData(&da)
+	keep := append([]byte(nil), da...)
+	b.GetMetaSeqData(&db)
+	if !bytes.Equal(da, keep) {
+		report("accessor:MetaSequencerData:result-overwritten", "MetaSequencerData", 50, a, "the data returned for one message changed when another message was decoded")
+	}
+}
+
 func numeric() {
 	for v := 0; v < 256; v++ {
 		ctx.Eval()
@@ -332,7 +367,7 @@ func main() {
 	}
 	ctx.Assume("time-signature clock fields are non-zero (zero is documented shorthand for 8); flat/sharp flag not judged for 0 accidentals; tempo payload within 1 of the 24-bit value")
 	ctx.Jobs("texts", 16, func(j int) { texts(j, 16) })
-	ctx.Jobs("numeric", 1, func(int) { numeric() })
+	ctx.Jobs("numeric", 1, func(int) { numeric(); reuse() })
 	ctx.Jobs("timesig", 16, func(j int) { timeSigs(j, 16) })
 	ctx.Jobs("keys", 1, func(int) { keys() })
 	ctx.Jobs("tempo", 16, func(j int) { tempos(j, 16) })
